@@ -10,7 +10,7 @@
    of the already updated sites above it, and one truncation closes the step. *)
 From Coq Require Import List Arith ZArith.
 Import ListNotations.
-From Yaqs Require Import Model.TdvpSweep Proofs.TdvpSweepP Model.JumpPipeline Proofs.JumpPipelineP Model.BugSweep Proofs.BugSweepP.
+From Yaqs Require Import Model.TdvpSweep Proofs.TdvpSweepP Model.JumpPipeline Proofs.JumpPipelineP Model.BugSweep Proofs.BugSweepP Model.SingleSite Proofs.SingleSiteP.
 
 Theorem C05_time_budget : forall ones, 2 <= length ones -> sane ones ->
   (forall j, j < length ones -> total_site j (fw 0 ones false) = 1%Z) /\
@@ -43,6 +43,15 @@ Print Assumptions C05_bug_right_block_is_updated.
 Theorem C05_bug_truncates_last : forall L, exists pre, bug_steps L = pre ++ [BTrunc] /\ ~ In BTrunc pre.
 Proof. exact bug_truncates_last. Qed.
 Print Assumptions C05_bug_truncates_last.
+(* the one-site integrator (the route of a one-site chain): every site forward by one full dt, every bond backward by one full dt *)
+Theorem C05_single_site_budget : forall L j, 1 <= L ->
+  ss_total (ss_site j) (ss_analog L) = (if j <? L then 2 else 0) /\ ss_total (ss_bond j) (ss_analog L) = (if j <? L - 1 then 2 else 0) /\
+  ss_total (ss_site j) (ss_circuit L) = (if j <? L then 2 else 0) /\ ss_total (ss_bond j) (ss_circuit L) = (if j <? L - 1 then 2 else 0).
+Proof. exact single_site_budget. Qed.
+Print Assumptions C05_single_site_budget.
+Example C05_single_site_example : ss_analog 1 = [SSite 0 2] /\ ss_analog 2 = [SSite 0 1; SBond 0 1; SSite 1 2; SBond 0 1; SSite 0 1].
+Proof. vm_compute. split; reflexivity. Qed.
+
 Example C05_bug_example : bug_steps 3 = [BUpd 2 2 2 3; BUpd 1 1 1 2; BUpd 0 0 0 1; BTrunc].
 Proof. vm_compute. reflexivity. Qed.
 
